@@ -4045,6 +4045,17 @@ class GraphTraversalReachability:
         commits, _bases = _collect_ancestors(
             self.store, heads, exclude_set, shallow_set
         )
+        if exclude_set:
+            # The walk above only stops at the excluded commits; their
+            # ancestors can still be reached around them. Drop those too,
+            # as documented (and as the bitmap provider does).
+            excluded, _bases = _collect_ancestors(
+                self.store,
+                [sha for sha in exclude_set if sha in self.store],
+                frozenset(),
+                shallow_set,
+            )
+            commits -= excluded
         return commits
 
     def get_tree_objects(
@@ -4080,7 +4091,8 @@ class GraphTraversalReachability:
         Returns:
           Set of all object SHAs (commits, trees, blobs)
         """
-        commits_set = set(commits)
+        # Everything reachable: the commits given and all their ancestors
+        commits_set = self.get_reachable_commits(commits)
         result = set(commits_set)
 
         # Get trees for all commits
@@ -4094,7 +4106,9 @@ class GraphTraversalReachability:
                 # Commit not in store, skip
                 continue
 
-        # Collect all tree/blob objects
+        # Collect all tree/blob objects (get_tree_objects yields what is
+        # below the given trees, not the root trees themselves)
+        result.update(tree_shas)
         result.update(self.get_tree_objects(tree_shas))
 
         # Exclude objects from exclude_commits if needed
@@ -4171,6 +4185,11 @@ class BitmapReachability:
         if exclude_shas and result_pack and combined_bitmap:
             exclude_bitmaps = find_commit_bitmaps(exclude_shas, [result_pack])
 
+            if len(exclude_bitmaps) != len(exclude_shas):
+                # Without a bitmap for every excluded commit the exclusion
+                # cannot be computed here; let the caller fall back rather
+                # than silently ignore it.
+                return None
             if len(exclude_bitmaps) == len(exclude_shas):
                 # All excludes have bitmaps, compute exclusion
                 exclude_combined = None
